@@ -70,8 +70,10 @@ static void part_files(vf::Rng& r) {
       C->violation(disk != d ? "save_file:file-content-differs" : "load_file:returns-other-bytes", fmt("round trip returned %zu bytes, file holds %zu bytes", got.size(), disk.size()), kase);
     } else
       C->cls(fmt("load_save:roundtrip:%s:%s", shape.c_str(), pre == 0 ? "new" : pre == 1 ? "over-longer" : "over-shorter"));
-    if (!threw && (closes_after_save != 1 || io::cm().closes.size() != 2 || io::cm().failures))
-      C->violation("load_save:descriptor-not-closed-exactly-once", fmt("save_file+load_file issued %zu close() calls (%d failed), expected one each", io::cm().closes.size(), io::cm().failures), kase);
+    // leaks are decided by the fd-table guard below; here only "closed more than once" (an implementation going through
+    // stdio would issue no interposed close() at all, which is fine)
+    if (!threw && (closes_after_save > 1 || io::cm().closes.size() > closes_after_save + 1 || io::cm().failures))
+      C->violation("load_save:descriptor-closed-more-than-once", fmt("save_file+load_file issued %zu close() calls (%d failed), expected at most one each", io::cm().closes.size(), io::cm().failures), kase);
     g.check("load_save", kase);
 
     // short-read plans: load_file may throw, but must never return anything but d
@@ -93,7 +95,7 @@ static void part_files(vf::Rng& r) {
       }
       string k2 = fmt("load_file of a %zu-byte file, every read() limited by plan %s", n, io::plan_str(p, cycle).c_str());
       judge("load_file", "short-plan", fmt("%s:%s", shape.c_str(), c1 >= n ? "limit>=size" : "limit<size"), d, o, [&] { return k2; });
-      if (ncl != 1 || nfail) C->violation("load_file:descriptor-not-closed-exactly-once", fmt("%zu close() calls (%zu failed) for one load_file (threw=%d)", ncl, nfail, (int)o.threw), k2);
+      if (ncl > 1 || nfail) C->violation("load_file:descriptor-closed-more-than-once", fmt("%zu close() calls (%zu failed) for one load_file (threw=%d)", ncl, nfail, (int)o.threw), k2);
       g2.check("load_file", k2);
     }
   }
